@@ -44,7 +44,7 @@ PROPS["C20"] = dict(
          "helpers, 32-bit values on a stride (stride 1 = all 2^32) through the intrinsic and "
          "generic overloads of int/unsigned, structured (all 1-/2-bit patterns, power-of-two "
          "neighbours, extremes) and random 64-bit values through long/long long overloads, "
-         "div_ceil/round_up/abs_diff pairs (dense 1..300 and near the type maximum), rotations "
+         "div_ceil/round_up/abs_diff pairs (dense 1..300, near the type maximum, and n/k of different integer types with results above 2^32), rotations "
          "by 0..128, buffer popcounts at every alignment, Aggregate pairs. Each result is "
          "compared with a loop/128-bit reference; inputs are restricted to each function's "
          "documented domain and to results representable in the result type. A class is a "
@@ -54,7 +54,7 @@ PROPS["C20"] = dict(
               "8-bit pairs of abs_diff/div_ceil/round_up; 32-bit: stride sample only",
         thorough="as quick, plus all 2^32 values of the int/unsigned overloads (mode=w32 stride=1)"),
     require=dict(any=["exhaustive:8-bit:templates", "exhaustive:16-bit:templates",
-                      "values_checked:w32", "values_checked:w64", "pairs_checked:agg"]),
+                      "values_checked:w32", "values_checked:w64", "pairs_checked:agg", "mixed_type_pairs"]),
     assumptions=["reference definitions written in the harness (bit loops, __int128) are right",
                  "UBSan alignment check disabled: popcount(void*) reads unaligned words by design",
                  SAN_ASSUME],
